@@ -129,14 +129,17 @@ class MCNP_InputFile:
         return self
 
     def __exit__(self, exc_type, exc_val, exc_tb):
-        status = self._fh.__exit__(exc_type, exc_val, exc_tb)
-        self._fh = None
-        if self._temp_path is not None:
-            temp_path = self._temp_path
-            self._temp_path = None
-            if exc_type is None:
+        temp_path = self._temp_path
+        self._temp_path = None
+        try:
+            status = self._fh.__exit__(exc_type, exc_val, exc_tb)
+            self._fh = None
+            if temp_path is not None and exc_type is None:
                 os.replace(temp_path, self.path)
-            else:
+                temp_path = None
+        finally:
+            # whatever failed (the block, the close, the move): no stray temporary file
+            if temp_path is not None:
                 os.remove(temp_path)
         return status
 
